@@ -1,5 +1,66 @@
 import ZoektModel.Basic.Proto
+import ZoektModel.C32.Spec
 namespace ZoektModel.C32
-/-- stub: no model driver for C32 yet -/
-def main : IO Unit := ZoektModel.Proto.runLines (fun _ => ZoektModel.Proto.badCase "no model driver for C32")
+open ZoektModel ZoektModel.Proto
+
+/-! `cleanup <merging 0|1> <now> <assigned ids> index=<files> trash=<files> tmps=<n>`
+    file: `<c|s><key>@<mtime>:<id>.<name>.<tomb>.<date>/…` (`:-` = no repositories), files comma separated, `-` = none.
+    Answer / implementation output: `index=<files> trash=<files> tmps=<n>`, files in basename order. -/
+
+def parseRepo (s : String) : Option Repo :=
+  match s.splitOn "." with
+  | [i, n, t, d] => do pure ⟨← i.toNat?, ← n.toNat?, ← bool? t, ← d.toInt?⟩
+  | _ => none
+
+def parseFile (s : String) : Option File :=
+  match s.splitOn ":" with
+  | [h, rs] =>
+    match h.splitOn "@" with
+    | [b, m] => do
+      let c ← (if b.startsWith "c" then some true else if b.startsWith "s" then some false else none)
+      let k ← (b.drop 1).toString.toNat?
+      let m ← m.toInt?
+      let rs ← (if rs == "-" then some [] else (rs.splitOn "/").mapM parseRepo)
+      pure ⟨c, k, m, rs⟩
+    | _ => none
+  | _ => none
+
+def parseFiles (s : String) : Option (List File) :=
+  if s == "-" then some [] else (s.splitOn ",").mapM parseFile
+
+def dropPrefix? (s pre : String) : Option String :=
+  if s.startsWith pre then some (s.drop pre.length).toString else none
+
+def parseDir (a b c : String) : Option Dir := do
+  pure ⟨← parseFiles (← dropPrefix? a "index="), ← parseFiles (← dropPrefix? b "trash="), ← (← dropPrefix? c "tmps=").toNat?⟩
+
+def showRepo (r : Repo) : String := s!"{r.id}.{r.name}.{showBool r.tomb}.{r.date}"
+
+def showFile (f : File) : String :=
+  s!"{if f.compound then "c" else "s"}{f.key}@{f.mtime}:{if f.repos.isEmpty then "-" else "/".intercalate (f.repos.map showRepo)}"
+
+def showFiles (l : List File) : String := showList showFile (sortFiles l)
+
+def showDir (d : Dir) : String := s!"index={showFiles d.index} trash={showFiles d.trash} tmps={d.tmps}"
+
+def handle (line : String) : String :=
+  let (inp, impl) := splitCase line
+  match fields inp with
+  | ["cleanup", m, now, asg, a, b, c] =>
+    match bool? m, now.toInt?, natList? asg, parseDir a b c with
+    | some m, some now, some asg, some pre =>
+      let model := showDir (cleanup pre asg now m)
+      match fields impl with
+      | [x, y, z] =>
+        match parseDir x y z with
+        | some post =>
+          match checkP pre asg now post with
+          | some k => specFail model k
+          | none => answer model
+        | none => badCase "impl dir"
+      | _ => badCase "impl fields"
+    | _, _, _, _ => badCase "fields"
+  | _ => badCase "op"
+
+def main : IO Unit := runLines handle
 end ZoektModel.C32
